@@ -512,6 +512,13 @@ impl NewCfg {
     pub fn tstate(&self) -> TState {
         let mut ts = TState::new(self.d.device_type(), self.offered, 8, self.max);
         ts.legacy = self.legacy;
+        // the status register does not read back what the driver wrote: the device has cleared
+        // FEATURES_OK or raised DEVICE_NEEDS_RESET.  The driver's own status writes must not depend on it.
+        if self.offered & 1 == 0 {
+            ts.status_and = !8;
+        } else {
+            ts.status_or = 0x40;
+        }
         ts.config = match self.cfg {
             "ok" => self.d.config_ok(),
             "missing" => vec![],
